@@ -10,4 +10,9 @@ for t in gen_*.py; do
   GIVERIF_REPO=/repo PYTHONPATH=/repo /venv/bin/python "$t"
 done
 cd "$here/lean"
-lake build
+targets="GIVerif"
+for f in Driver/C*.lean; do
+  n=$(basename "$f" .lean | tr 'A-Z' 'a-z')
+  targets="$targets gidriver_$n"
+done
+lake build $targets
